@@ -11,16 +11,18 @@ import os
 import sys
 import traceback
 
+# one ambient locale for every harness, driver and binary a check starts (stages that study locale-dependent behaviour set LC_ALL
+# themselves, for both sides of a comparison): what a check finds must not depend on the caller's environment.  Done BEFORE vlib is
+# imported, because vlib builds its harness environments (ASAN_ENV) from os.environ at import time.
+for _k in [k for k in os.environ if k.startswith('LC_') or k in ('LANG', 'LANGUAGE')]:
+    del os.environ[_k]
+os.environ['LC_ALL'] = 'C'
+
 sys.path.insert(0, os.path.dirname(os.path.abspath(__file__)))
 import vlib  # noqa: E402
 
 
 def main():
-    # one ambient locale for every harness, driver and binary a check starts (stages that study locale-dependent behaviour set
-    # LC_ALL themselves, for both sides of a comparison): what a check finds must not depend on the caller's environment
-    for k in [k for k in os.environ if k.startswith('LC_') or k in ('LANG', 'LANGUAGE')]:
-        del os.environ[k]
-    os.environ['LC_ALL'] = 'C'
     ap = argparse.ArgumentParser()
     ap.add_argument('prop', nargs='?')
     ap.add_argument('--tier', default=os.environ.get('VERIF_TIER', 'quick'), choices=['quick', 'thorough'])
